@@ -57,6 +57,39 @@ def strategy(tier):
   })
 
 
+_INT = {'t': 'int', 'min': None, 'max': None}
+FIXED_SPECS = [
+    # a required value one level down: clearing / resetting the outer dict must be refused as a whole
+    {'t': 'dict', 'fields': [['n', dict(_INT, default=[1])],
+                             ['sub', {'t': 'dict', 'fields': [['b', _INT], ['c', {'t': 'str', 'default': [0]}]]}]]},
+    # size-bounded list of dicts under an object
+    {'t': 'object', 'fields': [['l', {'t': 'list', 'elem': {'t': 'dict', 'fields': [['k', _INT]]}, 'min': 1, 'max': 3}],
+                               ['d', {'t': 'dict', 'fields': [['u', dict(_INT, default=[2])]], 'dyn': {'t': 'str'}}]]},
+    {'t': 'list', 'elem': {'t': 'list', 'elem': dict(_INT, min=0, max=5), 'min': 1, 'max': 2}, 'min': 2, 'max': 4},
+    {'t': 'dict', 'fields': [['t', {'t': 'tuple', 'elems': [_INT, {'t': 'str'}]}],
+                             ['e', {'t': 'enum', 'values': ['p', 'q'], 'default': [0]}],
+                             ['o', {'t': 'object', 'fields': [['x', _INT], ['y', {'t': 'str', 'default': [1]}]], 'noneable': True}]]},
+]
+EXHAUSTIVE_DOMAINS = {
+    'fixed_specs_single_ops': '4 hand-picked schemas (required value in a nested dict, size-bounded nested lists, dynamic keys, '
+                              'tuple / enum / noneable object fields) x every op x target 0..3 x mode 0..5 x valid/near-miss value',
+}
+
+
+def exhaustive(tier):
+  def gen():
+    for spec in FIXED_SPECS:
+      for name in ALL_OPS:
+        for t in range(4):
+          for m in range(6):
+            for bad in (False, True):
+              for c in ([0], [1, 2]) if tier != 'quick' else ([m],):
+                yield {'spec': spec, 'init': [t, m], 'partial': False, 'scope_init': False,
+                       'ops': [{'op': name, 't': t, 'i': m - 2, 'j': None if m % 2 else m, 's': None, 'k': m, 'c': c, 'bad': bad,
+                                'nf': False, 'ap': None, 'm': m}]}
+  return {'fixed_specs_single_ops': gen()}
+
+
 def _typed_nodes(root):
   return treeops.preorder(root)
 
@@ -452,7 +485,9 @@ def execute(case):
         return res.violate('invalid value %s was accepted (state now %s) | %s' % (_r(v), _r(root), what),
                            op=name, rule='accepted-invalid-write', **sigx)
       n_rejected += 1
-    if exc is not None and single is not None and before != after:
+    atomic = name in ('clear', 'dclear', 'popitem', 'dpop', 'ddelitem', 'pop', 'remove', 'delitem', 'delslice', 'sort', 'reverse',
+                      'setdefault', 'imul')
+    if exc is not None and (single is not None or atomic) and before != after:
       return res.violate('write raised %r but the tree changed: %s -> %s | %s' % (exc, before, after, what),
                          op=name, rule='failed-write-changed-state', exc=type(exc).__name__, **sigx)
     if exc is not None and not isinstance(exc, REJECT + (IndexError, pg.WritePermissionError, AttributeError)):
